@@ -482,7 +482,9 @@ def specs(ctx):
     # controls: the same plumbing with a B that IS trusted (same private CA): the run must pass through B
     add("late", "trusted", b={"chain": "trusted", "how": "url", "kinds": [rng.choice(URL_KINDS[1:])]},
         endpoint=["needed"], expect_ok=True)
-    add("late", "trusted", b={"chain": "trusted", "how": "redirect", "kinds": [rng.choice(REDIR_KINDS[2:])],
+    # (a GET: since /repo 1dd071b the daemon follows redirections itself and only for GET — a redirected POST
+    # never reaches B, trusted or not, so it cannot serve as a control)
+    add("late", "trusted", b={"chain": "trusted", "how": "redirect", "kinds": ["directory"],
                               "status": 307}, endpoint=["needed"], expect_ok=True)
 
     # ---- order / multiplicity / placement
